@@ -343,6 +343,8 @@ def R7_amount_and_limit_wiring(run):
     from rules import C16, C17
     C16.R1_swap_wiring(RuleProxy(run, "R7"))
     C17.R1_legs(RuleProxy(run, "R7"))
+    from rules.common import entry_forwarding
+    entry_forwarding(run, "R7", only=("swap",))
 
 
 RULES = [R1_threshold_table, R3_limit_validation, R4_partial_fill, R5_target_clamp, R6_amount_accounting, R7_amount_and_limit_wiring]
